@@ -67,6 +67,7 @@ def modelDescent : List IRow := [
   IRow.call "derefPaths" "addParameterToSpec" "param" "pathIsExternal",
   IRow.call "derefPaths" "onlyIf" "param != nil && param.Value != nil" "",
   IRow.call "derefPaths" "derefParameter" "*param.Value" "pathIsExternal || isExternal",
+  IRow.call "InternalizeRefs" "resetVisited" "" "",   -- initSt / rerunSt: the three visited sets start empty on EVERY call
   IRow.call "InternalizeRefs" "onlyIf" "refNameResolver == nil" "",
   IRow.call "InternalizeRefs" "onlyIf" "components := doc.Components; components != nil" "",
   IRow.call "InternalizeRefs" "addSchemaToSpec" "schema" "false",
